@@ -105,14 +105,4 @@ mod verif_f64 {
         assert!((x.partial_cmp(&y) == Some(Less)) == (y.partial_cmp(&x) == Some(Greater)));
         assert!(x.partial_cmp(&y).is_none() == y.partial_cmp(&x).is_none());
     }
-    #[kani::proof]
-    fn law_add_commutative() {
-        let (x, y) = (any_norm(), any_norm());
-        assert!(NumberBase::add(&x, &y) == NumberBase::add(&y, &x));
-    }
-    #[kani::proof]
-    fn law_mul_commutative() {
-        let (x, y) = (any_norm(), any_norm());
-        assert!(NumberBase::mul(&x, &y) == NumberBase::mul(&y, &x));
-    }
 }
